@@ -17,7 +17,7 @@ RULE = ('cases = base points x (TT tensors and TT matrices) of order 2..5 with M
         'distinct = (kind, structure, rank profile, f); non-trivial = tangent space of dimension >= 2 and z not in it.')
 ASSUMPTIONS = ['real float64', 'base points of non-minimal rank are rejected by the generator (the manifold is not smooth there)']
 REQUIRED_REACH = ['manifold:riemannian_projection', 'manifold:riemannian_gradient', 'manifold:_delta2cores']
-REQUIRED_COUNTS = {'kind:tensor': 1, 'kind:operator': 1, 'projection_vs_dense_projector': 50, 'gradient_vs_dense_projector': 30, 'axiom_checks': 200, 'base-point:ill-conditioned': 10, 'base-point:mode>1024': 2, 'moved_base_point_histories': 30, 'repeated_gradient_calls_at_one_object': 30}
+REQUIRED_COUNTS = {'kind:tensor': 1, 'kind:operator': 1, 'projection_vs_dense_projector': 50, 'gradient_vs_dense_projector': 30, 'axiom_checks': 200, 'base-point:ill-conditioned': 10, 'base-point:tiny-singular-value': 10, 'base-point:mode>1024': 2, 'moved_base_point_histories': 30, 'repeated_gradient_calls_at_one_object': 30}
 LINE_FUNCS = ['riemannian_projection', 'riemannian_gradient', '_delta2cores']
 
 
@@ -62,6 +62,15 @@ def cases(tier, seed):
                 R[k] = min(R[k], R[k - 1] * modes[k - 1], modes[k] * R[k + 1])
         cs.append({'gen': 'proj', 'N': N, 'M': M, 'R': R, 'f': ['quad', 'lin', 'quartic'][i % 3], 'Rz': gens.rank_profile(rng, d, 'rand', 4), 'Rw': gens.rank_profile(rng, d, 'rand', 3),
                    'ill': [1e-4, 1e-5, 3e-6][i % 3], 'ill_bond': rng.randint(1, d - 1), 'ill_side': i % 2})
+    # base points with a VERY small (but genuine) singular value at a bond: x = a + delta*b, delta 1e-11 / 1e-12.  The tangent space at such a point is ill-conditioned (it moves by
+    # u/delta under roundoff), so no independent dense projector is demanded; what remains decidable is the algebra of P (axioms) and "gradient = P(Euclidean gradient)" with the library's own P
+    for i in range(40 if tier == 'quick' else 400):
+        d = rng.choice([2, 3, 3, 4])
+        ttm = i % 4 == 3
+        N = [rng.choice((3, 4, 5, 6)) for _ in range(d)]
+        M = [rng.choice((1, 2)) for _ in range(d)] if ttm else None
+        cs.append({'gen': 'proj', 'N': N, 'M': M, 'R': [1] + [2] * (d - 1) + [1], 'f': ['quad', 'lin', 'quartic'][i % 3], 'Rz': gens.rank_profile(rng, d, 'rand', 3), 'Rw': gens.rank_profile(rng, d, 'rand', 3),
+                   'smallsv': [1e-11, 1e-12][i % 2]})
     # one long mode (above 1024, not a multiple of a power of two): size-dependent evaluation strategies must not change the projector
     for i in range(4 if tier == 'quick' else 24):
         d = 2 if (tier == 'quick' or i % 3) else 3
@@ -102,7 +111,17 @@ def run_case(case, ctx):
     # memory layout of the base point: contiguous cores, cores that are permuted views (rank and mode dims not mergeable), or (operators) the result of t()
     layout = ['contiguous', 'permuted-views', 'via-t()', 'via-TT-SVD', 'via-round', 'via-TT-SVD-rescaled'][case['seed'] % 6]
     tol = TOL
-    if case.get('ill'):
+    noref = False
+    if case.get('smallsv'):
+        layout = 'tiny-singular-value'
+        noref = True
+        a_ = gens.make_tt(N, R, dt, 'gauss', g, M=M)
+        b_ = gens.make_tt(N, [1] * (d + 1), dt, 'gauss', g, M=M)
+        dl_ = case['smallsv'] * dn.fro(dn.D(a_)) / max(dn.fro(dn.D(b_)), 1e-300)
+        x = ctx.call('TT+TT', lambda p_, q_: p_ + dl_ * q_, a_, b_)
+        R = [int(r) for r in x.R]
+        ctx.count('base-point:tiny-singular-value')
+    elif case.get('ill'):
         layout = 'ill-conditioned'
         delta, kb = case['ill'], case['ill_bond']
         tol = 1e3 * dn.ueps(dt) / delta
@@ -141,7 +160,7 @@ def run_case(case, ctx):
     dx = dn.D(x)
     dxi = dn.interleave_dense(dx, d) if ttm else dx
     from .c01 import _unfolding_ranks
-    if _unfolding_ranks(dxi, modes, 1e-10) != R[1:-1]:
+    if not noref and _unfolding_ranks(dxi, modes, 1e-10) != R[1:-1]:
         ctx.count('rejected:not-minimal-rank')
         return
     kind = 'operator' if ttm else 'tensor'
@@ -175,8 +194,8 @@ def run_case(case, ctx):
                 return None, -1
         rk_ = int((S > 1e-10 * S[0]).sum())
         return (U[:, :rk_], rk_) if rk_ == dim_expected else (None, rk_)
-    Q, rk = tangent_basis(x)
-    if Q is None:
+    Q, rk = (None, 2) if noref else tangent_basis(x)
+    if Q is None and not noref:
         ctx.count('rejected:tangent-dimension-mismatch')
         return
 
@@ -221,8 +240,9 @@ def run_case(case, ctx):
             return False
         return True
     # independent reference
-    ctx.count('projection_vs_dense_projector')
-    near(dPz, Pd(dz), nz, 'differs-from-dense-orthogonal-projector', 'D(P(z)) vs QQ^T z')
+    if not noref:
+        ctx.count('projection_vs_dense_projector')
+        near(dPz, Pd(dz), nz, 'differs-from-dense-orthogonal-projector', 'D(P(z)) vs QQ^T z')
     # axioms
     alpha = 1.7
     zaw = ctx.lib('TT+TT', lambda a, b: a + alpha * b, z, w)
@@ -264,8 +284,21 @@ def run_case(case, ctx):
     if not isinstance(gr, tt.TT) or bool(gr.is_ttm) != ttm or list(gr.N) != list(N):
         ctx.viol(gkey + '/clause=shape', '%s: returned %s' % (what, hooks.signature(gr)))
         return
-    ctx.count('gradient_vs_dense_projector')
     ne = dn.fro(egrad)
+    if noref:
+        # the library's own projection of the dense Euclidean gradient (written as a TT by the constructor, decided by C01)
+        eg_tt = ctx.lib('TT(dense)', lambda e_: tt.TT(e_, [(m_, n_) for m_, n_ in zip(M, N)], eps=1e-15) if ttm else tt.TT(e_, eps=1e-15), egrad.detach())
+        Peg = proj('Euclidean gradient', x, eg_tt) if isinstance(eg_tt, tt.TT) else None
+        if Peg is None:
+            return
+        ctx.count('gradient_vs_library_projection_of_the_euclidean_gradient')
+        errn = dn.fro(dn.D(gr) - dn.D(Peg))
+        ctx.metric('rel_err/gradient-vs-own-projection', errn / max(ne, 1e-300))
+        if not errn <= 10 * tol * max(ne, 1e-300):
+            ctx.viol(gkey + '/clause=differs-from-P(euclidean-gradient)', '%s: ||grad - P(egrad)|| = %.3e, ||egrad|| = %.3e' % (what, errn, ne))
+        ctx.nontrivial((kind, 'smallsv', tuple(N), tuple(M or ()), tuple(R), fkind))
+        return
+    ctx.count('gradient_vs_dense_projector')
     err = dn.fro(dn.D(gr) - Pd(egrad))
     ctx.metric('rel_err/gradient', err / max(ne, 1e-300))
     if not err <= tol * max(ne, 1e-300) * 10:
